@@ -3824,9 +3824,22 @@ FROM (
                 builder.cross_join(info["table_src"], info["sql_alias"])
                 continue
             right_alias = info["sql_alias"]
+
+            def _left_key(k: str, upto: int = idx) -> str:
+                # FULL JOIN: a row that exists only in a later operand has NULL keys in the
+                # first one, so compare against the first non-NULL key of all preceding operands.
+                if node.op == tokens.FULL_JOIN and upto >= 1:
+                    prev = [
+                        ci["sql_alias"]
+                        for ci in clause_info[: upto + 1]
+                        if k in ci["ds"].components
+                    ]
+                    if len(prev) > 1:
+                        return "COALESCE(" + ", ".join(f"{a}.{quote_name(k)}" for a in prev) + ")"
+                return f"{comp_to_alias.get(k, first_sql_alias)}.{quote_name(k)}"
+
             on_parts = [
-                f"{comp_to_alias.get(k, first_sql_alias)}.{quote_name(k)} = "
-                f"{right_alias}.{quote_name(k)}"
+                f"{_left_key(k)} = {right_alias}.{quote_name(k)}"
                 for k in pairwise_keys[idx]
                 if k in info["ds"].components
             ]
